@@ -19,7 +19,8 @@ MCFam == <<
   MV(P_Mv2, V(2, 0, 0, None, None),                                     H_abc,  "full"),   \* 7 upper case in the path
   MV(P_Mv2, V(2, 0, 1, <<I_0, T_2019 \o <<DASH>> \o H_012>>, None),     None,   "full"),   \* 8 pseudo
   MV(P_Mv2, V(1, 0, 0, None, None),                                     H_fed,  "nomod"),  \* 9 not valid for this path
-  MV(P_sub, V(0, 1, 0, None, None),                                     None,   "tiny")    \* 10 .info without Short
+  MV(P_sub, V(0, 1, 0, None, None),                                     None,   "tiny"),   \* 10 .info without Short
+  MV(P_m,   V(2, 0, 1, <<I_0, T_2019 \o <<DASH>> \o H_012>>, S_incompatible), None, "tiny")   \* 11 pseudo and +incompatible: still a pseudo-version
 >>
 
 R(kind, path, vers, ext, raw) == [kind |-> kind, path |-> path, vers |-> vers, ext |-> ext, raw |-> raw]
